@@ -226,6 +226,10 @@ func (p *Path) notePC(c *Term) {
 		return
 	}
 	p.pcSet[c] = true
+	// leaf == constant: later reads of that leaf fold to the constant
+	if c.Op == OEq && c.Args[1].IsConst() && c.Args[0].Op == OApp {
+		p.tt.Subst[c.Args[0]] = c.Args[1]
+	}
 	switch c.Op {
 	case OBAnd:
 		p.notePC(c.Args[0])
